@@ -9,6 +9,7 @@ import Absnfs.ServerCoherent
 import Absnfs.ServerPaths
 import Absnfs.PathLemmas
 import Absnfs.FsRename
+import Absnfs.HandlesInv
 namespace Absnfs
 namespace Lru
 variable {V : Type}
@@ -50,6 +51,8 @@ structure CInv (s : St) : Prop where
   keys : ∀ e ∈ s.ac.entries, CleanPath e.key
   hcl : HandlesClean s
   wf : Fs.WF s.fs
+  htab : Handles.Inv s.cfg.defaultMaxHandles s.hs
+  hdm : 0 < s.cfg.defaultMaxHandles
 
 /-- an entry that was right stays right when Lstat shows the same at its path -/
 theorem entryOK_of_view {fs fs' : Fs.T} (hw : Fs.WF fs) (hw' : Fs.WF fs') (e : Lru.Entry Attrs)
@@ -74,16 +77,20 @@ theorem entryOK_of_view {fs fs' : Fs.T} (hw : Fs.WF fs) (hw' : Fs.WF fs') (e : L
     paths whose Lstat view did not change -/
 theorem cinv_step {s s' : St} (h : CInv s) (hhs : s'.hs = s.hs) (hw : Fs.WF s'.fs) (hlru : Lru.Inv s'.ac)
     (hsub : ∀ e ∈ s'.ac.entries, e ∈ s.ac.entries ∧
-      Fs.viewAt s'.fs (fsPath e.key) = Fs.viewAt s.fs (fsPath e.key)) : CInv s' where
+      Fs.viewAt s'.fs (fsPath e.key) = Fs.viewAt s.fs (fsPath e.key))
+    (hcfg : s'.cfg = s.cfg := by rfl) : CInv s' where
   coh := fun e he => entryOK_of_view h.wf hw e (hsub e he).2 (h.coh e (hsub e he).1)
   lru := hlru
   keys := fun e he => h.keys e (hsub e he).1
   hcl := by intro x hx; rw [hhs] at hx; exact h.hcl x hx
   wf := hw
+  htab := by rw [hcfg, hhs]; exact h.htab
+  hdm := by rw [hcfg]; exact h.hdm
 
 /-- changes outside the backend, the attribute cache and the handle table do not matter -/
-theorem cinv_congr {s s' : St} (h : CInv s) (h1 : s'.fs = s.fs) (h2 : s'.ac = s.ac) (h3 : s'.hs = s.hs) : CInv s' := by
-  refine cinv_step h h3 (by rw [h1]; exact h.wf) (by rw [h2]; exact h.lru) ?_
+theorem cinv_congr {s s' : St} (h : CInv s) (h1 : s'.fs = s.fs) (h2 : s'.ac = s.ac) (h3 : s'.hs = s.hs)
+    (hcfg : s'.cfg = s.cfg := by rfl) : CInv s' := by
+  refine cinv_step h h3 (by rw [h1]; exact h.wf) (by rw [h2]; exact h.lru) ?_ hcfg
   intro e he
   rw [h2] at he
   exact ⟨he, by rw [h1]⟩
@@ -114,6 +121,8 @@ theorem acPut_cinv {s : St} (h : CInv s) (now : Nat) (p : Bytes) (a : Attrs) (hp
     · exact h.keys e h1
   hcl := h.hcl
   wf := h.wf
+  htab := h.htab
+  hdm := h.hdm
 
 theorem acPutNeg_cinv {s : St} (h : CInv s) (now : Nat) (p : Bytes) (hp : CleanPath p)
     (he : ∃ err, Fs.lstat s.fs (fsPath p) = .error err) : CInv (acPutNeg s now p) where
@@ -130,6 +139,8 @@ theorem acPutNeg_cinv {s : St} (h : CInv s) (now : Nat) (p : Bytes) (hp : CleanP
     · exact h.keys e hmem
   hcl := h.hcl
   wf := h.wf
+  htab := h.htab
+  hdm := h.hdm
 
 theorem lookupPath_cinv {s : St} (h : CInv s) (now : Nat) (p : Bytes) (hp : CleanPath p) : CInv (lookupPath s now p).1 := by
   unfold lookupPath
@@ -181,6 +192,8 @@ theorem allocate_cinv {s : St} (h : CInv s) (n : Node) (hp : CleanPath n.path) :
   keys := h.keys
   hcl := allocate_clean s n h.hcl hp
   wf := h.wf
+  htab := Handles.inv_alloc _ _ h.hdm s.hs n.path (cleanPath_ne_nil hp) h.htab
+  hdm := h.hdm
 
 theorem allocate_cinv' {s s' : St} {n : Node} {fh : Nat} (heq : allocate s n = (s', fh)) (h : CInv s) (hp : CleanPath n.path) :
     CInv s' := by
@@ -232,11 +245,11 @@ theorem lookupEach_cinv (s : St) (now : Nat) (dir : Bytes) (names : List Bytes) 
 theorem readDir_cinv (s : St) (now : Nat) (d : Node) (h : CInv s) (hd : CleanPath d.path) :
     CInv (readDir s now d).1 ∧ ∀ nodes, (readDir s now d).2 = .ok nodes →
       ∀ n ∈ nodes, CleanPath n.path ∧ n.attrs.fileId = fnv64 n.path := by
-  have key : ∀ (names : List Bytes) (s1 : St), s1.fs = s.fs → s1.ac = s.ac → s1.hs = s.hs →
+  have key : ∀ (names : List Bytes) (s1 : St), s1.fs = s.fs → s1.ac = s.ac → s1.hs = s.hs ∧ s1.cfg = s.cfg →
       CInv (lookupEach s1 now d.path names).1 ∧
       ∀ n ∈ (lookupEach s1 now d.path names).2, CleanPath n.path ∧ n.attrs.fileId = fnv64 n.path := by
     intro names s1 a b c
-    have hs1 := cinv_congr h a b c
+    have hs1 := cinv_congr h a b c.1 c.2
     have h1 := lookupEach_cinv s1 now d.path names hs1 hd
     have h2 := lookupEach_fileIds s1 now d.path names hs1.coh
     exact ⟨h1.1, fun n hn => ⟨h1.2 n hn, h2 n hn⟩⟩
@@ -244,12 +257,12 @@ theorem readDir_cinv (s : St) (now : Nat) (d : Node) (h : CInv s) (hd : CleanPat
   simp only
   split
   · rename_i s1 names heq
-    have hs1 : s1.fs = s.fs ∧ s1.ac = s.ac ∧ s1.hs = s.hs := by
+    have hs1 : s1.fs = s.fs ∧ s1.ac = s.ac ∧ s1.hs = s.hs ∧ s1.cfg = s.cfg := by
       split at heq
       · simp at heq
       · split at heq
         · simp only [Option.some.injEq, Prod.mk.injEq] at heq
-          rw [← heq.1]; exact ⟨rfl, rfl, rfl⟩
+          rw [← heq.1]; exact ⟨rfl, rfl, rfl, rfl⟩
         · simp at heq
     have := key names s1 hs1.1 hs1.2.1 hs1.2.2
     exact ⟨this.1, fun nodes hn => by simp only [Except.ok.injEq] at hn; rw [← hn]; exact this.2⟩
@@ -260,10 +273,13 @@ theorem readDir_cinv (s : St) (now : Nat) (d : Node) (h : CInv s) (hd : CleanPat
       refine ⟨(key _ _ ?_ ?_ ?_).1, fun nodes hn => ?_⟩
       · rfl
       · rfl
-      · rfl
+      · exact ⟨rfl, rfl⟩
       · simp only [Except.ok.injEq] at hn
         rw [← hn]
-        refine (key _ _ ?_ ?_ ?_).2 <;> rfl
+        refine (key _ _ ?_ ?_ ?_).2
+        · rfl
+        · rfl
+        · exact ⟨rfl, rfl⟩
 
 theorem refreshEach_cinv (s : St) (now : Nat) (l : List Node) (h : CInv s) (hl : ∀ n ∈ l, CleanPath n.path)
     (hids : ∀ n ∈ l, n.attrs.fileId = fnv64 n.path) :
